@@ -15,7 +15,7 @@ D2 == <<"d", <<730120, 3600, 5>>>>
 Scalars == {None, VBool(FALSE), VBool(TRUE), VInt(0), VInt(1), VInt(2), VFlt(1, 1), VFlt(5, 2), VFlt(-1, 2),
             VNaN(1), VNaN(2), VInf(1), VInf(-1), VStr(""), VStr("a"), VStr("b"), VStr("ab"), VStr("B"), D1, D2}
 Few == {None, VInt(1), VFlt(1, 1), VNaN(1), VStr("a"), VInt(2)}
-Containers == {VTup(<<>>), VLst(<<>>), <<"m", <<>>>>}
+Containers == {VTup(<<>>), VLst(<<>>), <<"m", <<>>>>, VTup(<<VBool(TRUE)>>), VTup(<<VBool(FALSE)>>), VTup(<<VInt(0)>>), VLst(<<VBool(TRUE)>>)}
               \cup {VTup(<<a>>) : a \in Few} \cup {VLst(<<a>>) : a \in Few}
               \cup {VTup(<<a, b>>) : a \in Few, b \in {None, VInt(1), VNaN(2)}}
               \cup {VLst(<<a, b>>) : a \in {VInt(1), VStr("a")}, b \in Few}
